@@ -320,13 +320,23 @@ class VerSpy:
 
     def __init__(self):
         self.ops = []
+        self.steps = []  # [{"log", "rev", "up", "ver": [...]}]
 
     def __enter__(self):
         from alembic.runtime.migration import HeadMaintainer as H
 
         self.H = H
-        self.orig = (H._insert_version, H._delete_version, H._update_version)
+        self.orig = (H._insert_version, H._delete_version, H._update_version, H.update_to_step)
         spy = self
+
+        def upd_step(self_, step):
+            rev = getattr(getattr(step, "revision", None), "revision", None)
+            spy.steps.append({"log": step.short_log, "rev": rev, "up": bool(getattr(step, "is_upgrade", True)), "ver": []})
+            n = len(spy.ops)
+            try:
+                return spy.orig[3](self_, step)
+            finally:
+                spy.steps[-1]["ver"] = spy.ops[n:]
 
         def ins(self_, version):
             spy.ops.append(["insert", version])
@@ -340,11 +350,11 @@ class VerSpy:
             spy.ops.append(["update", from_, to_])
             return spy.orig[2](self_, from_, to_)
 
-        H._insert_version, H._delete_version, H._update_version = ins, dele, upd
+        H._insert_version, H._delete_version, H._update_version, H.update_to_step = ins, dele, upd, upd_step
         return self
 
     def __exit__(self, *a):
-        self.H._insert_version, self.H._delete_version, self.H._update_version = self.orig
+        self.H._insert_version, self.H._delete_version, self.H._update_version, self.H.update_to_step = self.orig
 
 
 class FakeRunner:
@@ -362,13 +372,14 @@ class FakeRunner:
         fb = {}
         for r in hist:
             b = bodies.get(r["id"], {"up": [], "down": []})
-            fb[r["id"]] = (self._mk(b["up"]), self._mk(b["down"]))
+            fb[r["id"]] = (self._mk(b["up"], "upgrade"), self._mk(b["down"], "downgrade"))
         self.sd = make_sd(hist, fb)
 
-    def _mk(self, ops):
+    def _mk(self, ops, name):
         def body(**kw):
             run_ops(self.holder["op"], ops)
 
+        body.__name__ = name  # RevisionStep.short_log prints it
         return body
 
     def close(self):
@@ -532,9 +543,12 @@ def run_case(runner, tmp, cmd, start, target):
         if os.path.exists(p):
             os.remove(p)
     res = {"setup_error": None, "online_error": None, "offline_error": None, "exec_error": None}
+    res["setup_steps"] = []
     try:
         for h in start:
-            runner.online(a, "upgrade", h)
+            with VerSpy() as spy:
+                runner.online(a, "upgrade", h)
+            res["setup_steps"].append(spy.steps)
     except Exception as e:  # generator produced an inapplicable setup: not this property's business
         res["setup_error"] = "%s: %s" % (type(e).__name__, e)
         return res
@@ -547,6 +561,7 @@ def run_case(runner, tmp, cmd, start, target):
         except Exception as e:
             res["online_error"] = "%s: %s" % (type(e).__name__, str(e)[:300])
     res["ver_online"] = spy.ops
+    res["steps_online"] = spy.steps
     with VerSpy() as spy:
         try:
             script, steps = runner.offline(cmd, start, target)
@@ -555,6 +570,7 @@ def run_case(runner, tmp, cmd, start, target):
         except Exception as e:
             res["offline_error"] = "%s: %s" % (type(e).__name__, str(e)[:300])
     res["ver_offline"] = spy.ops
+    res["steps_offline"] = spy.steps
     if res["offline_error"]:
         return res
     # (when the online run raised, the script is still executed: "both fail" is not a difference)
